@@ -156,13 +156,22 @@ def async_body(prog, fn_path):
     return ctx_of(prog, fn_path)
 
 
+def is_call(o, *pats):
+    """origin o is the result of a call to one of pats (any spelling of the callee)"""
+    if o.kind != "call":
+        return False
+    if o.extra is not None and hasattr(o.extra, "is_call_to"):
+        return o.extra.is_call_to(*pats)
+    return any(path_match(o.key[1], p) for p in pats)
+
+
 def root_calls(origins, *pats):
     """origins that are results of calls matching pats"""
-    return [o for o in origins if o.kind == "call" and any(path_match(o.key[1], p) for p in pats)]
+    return [o for o in origins if is_call(o, *pats)]
 
 
 def only_calls(origins, *pats):
-    return bool(origins) and all(o.kind == "call" and any(path_match(o.key[1], p) for p in pats) for o in origins)
+    return bool(origins) and all(is_call(o, *pats) for o in origins)
 
 
 def normalise_le(op, a_is_small, tr):
